@@ -9,6 +9,7 @@ package main
 import (
 	"encoding/json"
 	"fmt"
+	"hash/fnv"
 	"os"
 	"os/exec"
 	"path/filepath"
@@ -127,8 +128,29 @@ func runSelftest(repo, verif string, def *PropDef, kf *KFFile) SelftestResult {
 		err     error
 	}
 	var jobs []*job
+	// the second pass finds its results by what the variant IS (expectation and contents of the overlay), not by its
+	// position: the directories of variants may gain entries while a run is under way
+	jobKey := func(overlay map[string][]byte, er, ek string) string {
+		names := make([]string, 0, len(overlay))
+		for n := range overlay {
+			names = append(names, n)
+		}
+		sort.Strings(names)
+		h := fnv.New64a()
+		for _, n := range names {
+			h.Write([]byte(n))
+			h.Write([]byte{0})
+			h.Write(overlay[n])
+			h.Write([]byte{0})
+		}
+		return fmt.Sprintf("%s|%s|%x", er, ek, h.Sum64())
+	}
+	byKey := map[string][]*job{}
 	selftestPass(repo, verif, def, kf, bp, func(overlay map[string][]byte, er, ek string) (bool, []string, error) {
-		jobs = append(jobs, &job{overlay: overlay, er: er, ek: ek})
+		j := &job{overlay: overlay, er: er, ek: ek}
+		jobs = append(jobs, j)
+		k := jobKey(overlay, er, ek)
+		byKey[k] = append(byKey[k], j)
 		return false, nil, nil
 	})
 	workers := runtime.NumCPU() / 2
@@ -160,11 +182,15 @@ func runSelftest(repo, verif string, def *PropDef, kf *KFFile) SelftestResult {
 	}
 	close(next)
 	wg.Wait()
-	i := 0
 	st := selftestPass(repo, verif, def, kf, bp, func(overlay map[string][]byte, er, ek string) (bool, []string, error) {
-		j := jobs[i]
-		i++
-		return j.det, j.fired, j.err
+		k := jobKey(overlay, er, ek)
+		if q := byKey[k]; len(q) > 0 {
+			j := q[0]
+			byKey[k] = q[1:]
+			return j.det, j.fired, j.err
+		}
+		// a variant that appeared after the first pass: analysed here
+		return runVariant(repo, overlay, def, kf, base, er, ek)
 	})
 	st.Workers = workers
 	return st
